@@ -160,7 +160,10 @@ Inductive event :=
 | DropUnordered (p : nat) (n : nat)
 | StallTick (p : nat) (t : bool)
 | Endgame
-| SnapConn (p : nat) (unch : bool) (q u s c : list entry) (t : option entry)
+| LoseInterest (p : nat)      (* fill_write_buffer: nothing to request and not interested in a listed piece *)
+| QueueChoke (p : nat)        (* our own download choke queue choked the connection (receive_download_choke(true)) *)
+| QueueUnchoke (p : nat)      (* ... unchoked it again (receive_download_choke(false)) *)
+| SnapConn (p : nat) (unch : bool) (q u s c : list entry) (t : option entry) (dint dq : bool)
 | SnapGlobal (aggr : bool) (active : list N) (completed : list bool).
 
 (* ---- DownloadMain::update_endgame ---- *)
@@ -402,7 +405,9 @@ Definition accept (s : state) (ev : event) : option state :=
                                        (if t then option_map mark_stalled (c_t c) else c_t c) (c_cancels c) (c_aff c))))
       | None => None
       end
-  | SnapConn p unch q u s' c' t =>
+  | LoseInterest p | QueueChoke p | QueueUnchoke p =>
+      match get_conn s p with Some _ => Some s | None => None end
+  | SnapConn p unch q u s' c' t _ _ =>
       match get_conn s p with
       | Some c =>
           if Bool.eqb unch (c_unchoked c) && ents_eqb q (c_q c) && ents_eqb u (c_u c) && ents_eqb s' (c_s c)
@@ -451,3 +456,134 @@ Definition params_ok : bool :=
   (0 <? Params.c04_pipe_aggr_lo_add) && (0 <? Params.c04_pipe_aggr_hi_add) &&
   (0 <? Params.c04_pipe_norm_div) && (0 <? Params.c04_pipe_aggr_lo_div) && (0 <? Params.c04_pipe_aggr_hi_div).
 
+
+(* =====================================================================================================
+   Liveness layer: the client's INTERNAL interest flag (m_down_interested) and the connection's membership
+   of the download choke queue (m_down_choke.queued()), per peer slot, on top of `accept`.
+   Code modelled: PeerConnectionBase::initialize (interest at connect), PeerConnection<>::read_message
+   (UNCHOKE queues an interested connection, CHOKE un-queues), read_have_chunk (interest raised by a HAVE),
+   update_interested (Download::update_priorities), fill_write_buffer (interest dropped when
+   try_request_pieces finds nothing and no listed piece is announced), receive_download_choke (own queue),
+   should_request (m_down_interested), try_request_pieces (pipe gate and loop guard).
+   The four repairs of this property are source-extracted flags (ParamsGen):                              *)
+Definition fix_update_interested_queues : bool := 0 <? Params.c04_update_interested_queues.
+Definition fix_have_listed_raises : bool := 0 <? Params.c04_have_listed_raises.
+Definition fix_pipe_counts_valid : bool := 0 <? Params.c04_pipe_counts_valid.
+
+Record xstate := mkX { x_s : state; x_dl : list (bool * bool) }.   (* (m_down_interested, queued) per slot *)
+
+Definition dl_get (x : xstate) (p : nat) : bool * bool := nth p (x_dl x) (false, false).
+Definition dint (x : xstate) (p : nat) : bool := fst (dl_get x p).
+Definition dq (x : xstate) (p : nat) : bool := snd (dl_get x p).
+
+Definition all_done (s : state) : bool := forallb (fun b => b) (s_completed s).
+
+Definition xinit (plen total : N) (completed wanted : list bool) : xstate :=
+  mkX (init plen total completed wanted) [(false, false); (false, false); (false, false); (false, false)].
+
+(* RequestList::is_interested_in_active *)
+Definition interested_in_active (s : state) (c : conn) : bool := existsb (fun i => getb (c_have c) i) (s_active s).
+
+(* what Delegator::delegate could hand to this connection: the REQUEST guard of `accept` without the flags *)
+Definition blk_ok (s : state) (c : conn) (i o : N) : bool :=
+  let l := N.min block_size (piece_size s i - o) in
+  valid_block s i o l
+  && negb (getb (s_completed s) i) && negb (mem_blk i o (s_fin s)) && negb (holds c i o)
+  && (getb (c_have c) i || match c_aff c with Some a => a =? i | None => false end)
+  && (memN i (s_active s) || (getb (s_wanted s) i && getb (c_have c) i))
+  && (if s_aggr s then not_stalled s i o <? overlapped else not_stalled s i o =? 0).
+
+Definition delegatable (s : state) (c : conn) : bool :=
+  existsb (fun pi => let i := N.of_nat pi in
+                     existsb (fun k => blk_ok s c i (N.of_nat k * block_size)) (seq 0 (N.to_nat (nblocks s i))))
+          (seq 0 (length (s_completed s))).
+
+(* RequestList::pipe_size and the two places of try_request_pieces that look at it *)
+Definition pipe_size (c : conn) : N :=
+  N.of_nat (length (c_q c)) + N.of_nat (length (c_s c)) + N.of_nat (length (c_u c)) / 4.
+Definition queued_for_pipe (c : conn) : N :=
+  if fix_pipe_counts_valid then N.of_nat (length (filter e_valid (c_q c))) else N.of_nat (length (c_q c)).
+Definition pipe_gate_closed (c : conn) (pipe : N) : bool :=
+  (pipe + Params.c04_pipe_gate_add) / Params.c04_pipe_gate_div <=? pipe_size c.
+Definition pipe_has_room (c : conn) (pipe : N) : bool := queued_for_pipe c <? pipe.
+(* smallest value the gate can have: pipe >= 1 *)
+Definition min_gate : N := (1 + Params.c04_pipe_gate_add) / Params.c04_pipe_gate_div.
+
+(* ChunkSelector::received_have_chunk, and the listed-piece clause of the repaired read_have_chunk *)
+Definition have_raises (s : state) (i : N) : bool :=
+  (negb (getb (s_completed s) i) && negb (memN i (s_active s)) && getb (s_wanted s) i)
+  || (fix_have_listed_raises && memN i (s_active s)).
+
+Definition set_dl (x : xstate) (s' : state) (p : nat) (v : bool * bool) : xstate :=
+  mkX s' (set_nth (x_dl x) p v).
+
+Definition unch_of (s : state) (p : nat) : bool :=
+  match get_conn s p with Some c => c_unchoked c | None => false end.
+
+(* update_interested on every connection *)
+Fixpoint upd_all (s : state) (l : list (bool * bool)) (p : nat) : list (bool * bool) :=
+  match l with
+  | [] => []
+  | (di, q) :: r =>
+      (match get_conn s p with
+       | Some c => if di then (di, q) else (true, q || (fix_update_interested_queues && c_unchoked c))
+       | None => (di, q)
+       end) :: upd_all s r (S p)
+  end.
+
+Definition xaccept (x : xstate) (ev : event) : option xstate :=
+  let s := x_s x in
+  match ev with
+  | SRequest p _ _ _ =>
+      if dint x p then option_map (fun s' => mkX s' (x_dl x)) (accept s ev) else None   (* should_request *)
+  | Join p _ =>
+      option_map (fun s' => set_dl x s' p (negb (all_done s), false)) (accept s ev)
+  | Unchoke p =>
+      option_map (fun s' => set_dl x s' p (dint x p, dq x p || dint x p)) (accept s ev)
+  | Choke p =>
+      option_map (fun s' => set_dl x s' p (dint x p, false)) (accept s ev)
+  | Disc p =>
+      option_map (fun s' => set_dl x s' p (false, false)) (accept s ev)
+  | Have p i =>
+      match get_conn s p with
+      | None => None
+      | Some c =>
+          let raise := negb (getb (c_have c) i) && negb (all_done s) && negb (dint x p) && have_raises s i in
+          option_map (fun s' => if raise then set_dl x s' p (true, dq x p || c_unchoked c) else mkX s' (x_dl x)) (accept s ev)
+      end
+  | Wanted _ =>
+      option_map (fun s' => mkX s' (upd_all s (x_dl x) 0)) (accept s ev)
+  | LoseInterest p =>
+      match get_conn s p with
+      | None => None
+      | Some c =>
+          if dint x p && c_unchoked c && negb (interested_in_active s c)
+             && (negb (delegatable s c) || (0 <? queued_for_pipe c) || (min_gate <=? pipe_size c))
+          then Some (set_dl x s p (false, false)) else None
+      end
+  | QueueChoke p =>
+      match get_conn s p with
+      | None => None
+      | Some c => if dint x p && dq x p && c_unchoked c then Some (set_dl x s p (false, true)) else None
+      end
+  | QueueUnchoke p =>
+      match get_conn s p with
+      | None => None
+      | Some c => if negb (dint x p) && dq x p then Some (set_dl x s p (true, true)) else None
+      end
+  | SnapConn p _ _ _ _ _ _ di q =>
+      if Bool.eqb di (dint x p) && Bool.eqb q (dq x p) then option_map (fun s' => mkX s' (x_dl x)) (accept s ev) else None
+  | _ => option_map (fun s' => mkX s' (x_dl x)) (accept s ev)
+  end.
+
+Fixpoint xrun (x : xstate) (evs : list event) : option xstate :=
+  match evs with
+  | [] => Some x
+  | e :: r => match xaccept x e with Some x' => xrun x' r | None => None end
+  end.
+
+Fixpoint xrun_ix (x : xstate) (evs : list event) (k : nat) : nat + xstate :=
+  match evs with
+  | [] => inr x
+  | e :: r => match xaccept x e with Some x' => xrun_ix x' r (S k) | None => inl k end
+  end.
